@@ -138,7 +138,11 @@ def layer_error_variable(ctx, n):
     for case in range(n):
         lead = rng.choice(['', 'x\n', 'é\n\n   ', '<b>t</b>\n\t'])
         site = rng.choice(['${f(1)}', '<i tal:content="f(1)">c</i>', '<i tal:attributes="a f(1)">c</i>', '<i tal:condition="f(1)">c</i>',
-                           '<i tal:repeat="r f(1)">c</i>', 'a\n  b ${f(1)}'])
+                           '<i tal:repeat="r f(1)">c</i>', 'a\n  b ${f(1)}',
+                           # the failure happens inside a macro rendered in place, after the enclosing function has
+                           # evaluated something else successfully
+                           '${g(0)}<m metal:define-macro="mm%d">a ${f(1)}</m>' % case,
+                           '<i tal:on-error="string:inner">${g(0)}${1/0}</i><m metal:define-macro="mm%d">\n ${f(1)}</m>' % case])
         exc = rng.choice(['ZeroDivisionError', 'KeyError', 'CustomError', 'ValueError'])
         src = lead + '<div class="k" tal:on-error="string:T=${error.type.__name__};V=${type(error.value).__name__};L=${error.lineno};O=${error.offset}">before %s after</div>!' % site
         off = src.index('f(1)')
@@ -149,10 +153,17 @@ def layer_error_variable(ctx, n):
         def f(i, exc=exc):
             raise tmodel.make_exc(exc, i)
         try:
-            out = PageTemplate(src, on_error_handler=calls.append)(f=f)
+            out = PageTemplate(src, on_error_handler=calls.append)(f=f, g=lambda i: 'g')
         except Exception as e:
             out = 'RAISED %s: %s' % (type(e).__name__, str(e).split('\n')[0][:80])
         want = lead + '<div class="k">T=%s;V=%s;L=%d;O=%d</div>!' % (exc, exc, line, col)
+        in_macro = 'define-macro' in site
+        if in_macro:
+            # the position of a failure inside an in-place macro is either not known (None) or the failing
+            # expression's - never that of some other expression
+            if out == lead + '<div class="k">T=%s;V=%s;L=;O=</div>!' % (exc, exc):
+                want = out
+            calls = [c for c in calls if type(c).__name__ != 'ZeroDivisionError' or exc == 'ZeroDivisionError'][-1:]
         ctx.mon('error-variable-compared')
         ctx.case(key=('errvar', site[:12], exc, bool(lead)), nontrivial=True)
         if out != want or len(calls) != 1 or type(calls[0]).__name__ != exc:
